@@ -28,7 +28,25 @@ def _mk(kind, vals):
     return list(vals)
   if kind == 'tuple':
     return tuple(vals)
+  if kind == 'array2d':     # one row = a vector (v, v + W2): rows of n-d arrays must be kept whole and stacked along axis 0
+    return np.array([[v, v + W2] for v in vals], dtype=np.int64).reshape(len(vals), 2)
   return np.array(vals, dtype=np.int64)
+
+
+W2 = 500000
+
+
+def _rows(kind, col, what):
+  """-> the int row values of a column; for 2-d columns checks every row is still the whole vector (v, v + W2)."""
+  if kind != 'array2d':
+    return [int(x) for x in col]
+  check(col.ndim == 2 and col.shape[1] == 2, 'row-shape-changed', f'{what}: column of 2-wide rows now has shape {col.shape}')
+  out = []
+  for r in col:
+    a, b = int(r[0]), int(r[1])
+    check(b == a + W2 or (a == PAD and b == PAD), 'row-shape-changed', f'{what}: row {r.tolist()} is not an input row')
+    out.append(a)
+  return out
 
 
 def _kind_ok(kind, col):
@@ -36,7 +54,7 @@ def _kind_ok(kind, col):
     return type(col) is list  # pylint: disable=unidiomatic-typecheck
   if kind == 'tuple':
     return type(col) is tuple  # pylint: disable=unidiomatic-typecheck
-  return isinstance(col, np.ndarray)
+  return isinstance(col, np.ndarray) and col.ndim == (2 if kind == 'array2d' else 1)
 
 
 def build_stream(sizes, ncols, kind):
@@ -48,8 +66,13 @@ def build_stream(sizes, ncols, kind):
   return out, row
 
 
-def check_rebatched(outputs, total, target, ncols, kind, pad, what='rebatched_args'):
-  """Validity predicate over the emitted batches (the property statement, clause by clause)."""
+def check_rebatched(outputs, total, target, ncols, kind, pad, what='rebatched_args', rows=None):
+  """Validity predicate over the emitted batches (the property statement, clause by clause).
+
+  rows: the expected row ids in order (default: 0..total-1, the input rows)
+  """
+  rows = list(range(total)) if rows is None else list(rows)
+  total = len(rows)
   if total == 0:
     check(len(outputs) == 0, 'nonempty-output-for-empty-input', f'{what}: {outputs!r}')
     return
@@ -68,9 +91,10 @@ def check_rebatched(outputs, total, target, ncols, kind, pad, what='rebatched_ar
           f'{what}: batch {bi} has {lens[0]} rows, want {want} (target {target}, total {total}, pad {pad})')
     real = min(target, total - seen)
     for j, c in enumerate(b):
-      check(_kind_ok(kind, c), 'container-kind-changed', f'{what}: batch {bi} col {j} is {type(c).__name__}, input {kind}')
-      vals = [int(x) for x in c]
-      want_vals = [(seen + i) * 8 + j for i in range(real)] + [pad] * (lens[0] - real)
+      check(_kind_ok(kind, c), 'container-kind-changed',
+            f'{what}: batch {bi} col {j} is {type(c).__name__}{getattr(c, "shape", "")}, input {kind}')
+      vals = _rows(kind, c, f'{what}: batch {bi} col {j}')
+      want_vals = [rows[seen + i] * 8 + j for i in range(real)] + [pad] * (lens[0] - real)
       check(vals == want_vals, 'rows-not-conserved',
             f'{what}: batch {bi} col {j}: got {vals}, want {want_vals}')
     seen += real
@@ -125,7 +149,7 @@ def enum_direct(tier):
     for sizes in itertools.product(range(6), repeat=n):
       for target in range(1, 7):
         for ncols in (1, 2, 3):
-          for kind in ('list', 'tuple', 'array'):
+          for kind in ('list', 'tuple', 'array', 'array2d'):
             for pad in (False, True):
               for numc in (False, True):
                 yield {'sizes': list(sizes), 'target': target, 'ncols': ncols, 'kind': kind,
@@ -143,7 +167,7 @@ def strat_direct(tier):
                      st.sampled_from([0, 1, target, 2 * target, 2 * target + 1]))
     sizes = draw(st.lists(size, min_size=0, max_size=maxlen))
     return {'sizes': sizes, 'target': target, 'ncols': draw(st.integers(1, 4)),
-            'kind': draw(st.sampled_from(['list', 'tuple', 'array'])), 'pad': draw(st.booleans()),
+            'kind': draw(st.sampled_from(['list', 'tuple', 'array', 'array2d'])), 'pad': draw(st.booleans()),
             'num_columns': draw(st.booleans())}
   return s()
 
@@ -152,7 +176,7 @@ def decode_direct(fdp):
   """bytes -> case for the coverage-guided engine (same domain as strat_direct, thorough bounds)."""
   target = fdp.ConsumeIntInRange(1, 90)
   ncols = fdp.ConsumeIntInRange(1, 4)
-  kind = ('list', 'tuple', 'array')[fdp.ConsumeIntInRange(0, 2)]
+  kind = ('list', 'tuple', 'array', 'array2d')[fdp.ConsumeIntInRange(0, 3)]
   flags = fdp.ConsumeIntInRange(0, 3)
   sizes = []
   while fdp.remaining_bytes() and len(sizes) < 24:
@@ -163,9 +187,25 @@ def decode_direct(fdp):
 
 
 # ------------------------------------------------------------------ through the pipeline
-def _colfn(kind):
+def _keep(fnkind, rowids):
+  """Row-wise effect of the batched function on the row ids it is called with."""
+  if fnkind == 'keep_even':
+    return [r for r in rowids if r % 2 == 0]
+  if fnkind == 'dup':
+    return [r for r in rowids for _ in range(2)]
+  return list(rowids)
+
+
+def _colfn(kind, fnkind='same'):
   def add_one_million(*cols):
-    out = tuple(_mk(kind, [int(x) + 1000000 for x in c]) for c in cols)
+    out = []
+    for j, c in enumerate(cols):
+      vals = [int(x[0] if kind == 'array2d' else x) for x in c]
+      # the function works row by row (drops odd rows / emits every row twice), so its concatenated result does not
+      # depend on how its input was batched
+      vals = [r * 8 + j for r in _keep(fnkind, [v // 8 for v in vals])]
+      out.append(_mk(kind, [v + 1000000 for v in vals]))
+    out = tuple(out)
     return out if len(out) > 1 else out[0]
   return add_one_million
 
@@ -178,7 +218,8 @@ def run_pipeline(case):
   keys = tuple(f'c{j}' for j in range(ncols))
   records = [dict(zip(keys, b)) for b in stream]
   calls = []
-  base = _colfn(kind)
+  fnkind = case.get('fnkind', 'same')
+  base = _colfn(kind, fnkind)
 
   def fn(*cols):
     calls.append([len(c) for c in cols])
@@ -207,9 +248,10 @@ def run_pipeline(case):
     outputs = []
     for o in out:
       check(isinstance(o, dict) and set(o) == set(keys), 'wrong-keys', f'{o!r}')
-      outputs.append(tuple(_mk(kind, [int(x) - off for x in o[k]]) if kind != 'array'
+      outputs.append(tuple(_mk(kind, [int(x) - off for x in o[k]]) if kind not in ('array', 'array2d')
                            else np.asarray(o[k]) - off for k in keys))
-    check_rebatched(outputs, total, bs, ncols, kind, None, what=f'{op}(batch_size)')
+    check_rebatched(outputs, total, bs, ncols, kind, None, what=f'{op}(batch_size={bs}, fn_batch_size={fbs}, fn={fnkind})',
+                    rows=_keep(fnkind, range(total)) if op == 'apply' else None)
     if op == 'apply' and fbs and total:
       # the function must have been called on batches of exactly fn_batch_size rows (last may be short)
       nb = -(-total // fbs)
@@ -217,6 +259,8 @@ def run_pipeline(case):
       check(calls == want, 'fn-batch-size-not-honoured', f'fn saw {calls}, want {want}')
   cl, nt = classify(sizes if op != 'batch' else [1] * total, bs)
   cl.append(f'op-{op}')
+  if fnkind != 'same':
+    cl.append(f'fn-{fnkind}')
   if fbs:
     cl.append('fn_batch_size')
   if op == 'batch':
@@ -234,12 +278,16 @@ def strat_pipeline(tier):
     size = st.one_of(st.integers(1, maxsize), st.integers(max(1, bs - 2), bs + 2))
     sizes = draw(st.lists(size, min_size=0 if op != 'batch' else 0, max_size=maxlen))
     fbs = draw(st.one_of(st.just(0), st.integers(1, maxsize + 2))) if op == 'apply' else 0
-    kind = draw(st.sampled_from(['list', 'tuple', 'array'])) if op != 'batch' else 'list'
+    kind = draw(st.sampled_from(['list', 'tuple', 'array', 'array2d'])) if op != 'batch' else 'list'
     # a single *tuple* column returned by a function is, by the API's documented duality, read as
     # several outputs; tuple containers are therefore only generated with >= 2 columns under apply.
     ncols = draw(st.integers(2 if (op == 'apply' and kind == 'tuple') else 1, 3))
-    return {'op': op, 'sizes': sizes, 'ncols': ncols, 'kind': kind,
-            'batch_size': bs, 'fn_batch_size': fbs}
+    case = {'op': op, 'sizes': sizes, 'ncols': ncols, 'kind': kind, 'batch_size': bs, 'fn_batch_size': fbs}
+    if op == 'apply':
+      if draw(st.integers(0, 3)) == 0:
+        case['fn_batch_size'] = bs          # function batch == output batch
+      case['fnkind'] = draw(st.sampled_from(['same', 'same', 'keep_even', 'dup']))
+    return case
   return s()
 
 
